@@ -6,9 +6,7 @@ CONSTANTS
 INVARIANT ThCliques
 INVARIANT ThWellFormed
 INVARIANT ThStrict
-INVARIANT ThDefBetti
 INVARIANT ThDelay
-INVARIANT ThDelayDef
 INVARIANT ThNoTorsion
 INVARIANT EmitCase
 CHECK_DEADLOCK FALSE
